@@ -400,7 +400,10 @@ pub fn spec(check: &str, tier: &str) -> Option<CheckSpec> {
                 progs.extend(fam::a_sc(1, 3, 1, 3, true));
                 progs.extend(fam::lock_family(2, 0, 2, 3, 6, true, true));
                 progs.extend(fam::lock_family(1, 1, 2, 3, 6, true, true));
-                level = "A-sc RMW-only 2-3 threads <=4 ops; LOCK 2 threads <=6 ops".to_string();
+                progs.extend(fam::lit(1, 2, 2, 3, false, false));
+                progs.extend(fam::wait_rounds().into_iter().filter(|p| p.name.contains("notify")));
+                progs.extend(fam::wait_loop_family(false).into_iter().filter(|p| p.name.starts_with("WAIT-loop-0")));
+                level = "A-sc RMW-only 2-3 threads <=4 ops; LOCK 2 threads <=6 ops; LIT 2 threads <=3 events (Load decisions); Notify rounds and wait loops (Spurious decisions)".to_string();
             } else {
                 progs.extend(fam::a_sc(1, 2, 3, 6, true));
                 progs.extend(fam::a_sc(2, 2, 2, 4, true));
@@ -408,7 +411,11 @@ pub fn spec(check: &str, tier: &str) -> Option<CheckSpec> {
                 progs.extend(fam::lock_family(2, 0, 2, 4, 8, true, true));
                 progs.extend(fam::lock_family(1, 1, 2, 4, 8, true, true));
                 progs.extend(fam::lock_family(1, 0, 3, 3, 7, true, true));
-                level = "A-sc RMW-only 2 threads <=6 ops, 3 threads <=4 ops; LOCK 2 threads <=8 ops, 3 threads <=7 ops".to_string();
+                progs.extend(fam::lit(1, 2, 2, 4, false, false));
+                progs.extend(fam::lit(2, 2, 2, 4, false, false));
+                progs.extend(fam::wait_rounds());
+                progs.extend(fam::wait_loop_family(false));
+                level = "A-sc RMW-only 2 threads <=6 ops, 3 threads <=4 ops; LOCK 2 threads <=8 ops, 3 threads <=7 ops; LIT 2 threads <=4 events; WAIT-rounds and WAIT-loop (Load and Spurious decisions)".to_string();
             }
             let mut cfg = cfg.clone();
             cfg.iter_cap = 5000;
